@@ -255,7 +255,8 @@ pub fn mutate_fault(r: &mut Rng, p: &Project, kind: FaultKind) -> Option<Project
             }
         }
         FaultKind::IncompatibleVariableType => {
-            // a NEW variable of the wrong type, used exactly once (so nothing becomes unused)
+            // a NEW variable of the wrong type, used exactly once (so nothing becomes unused);
+            // nullable, so that selections of the mutated client field do not miss an argument
             let lits: Vec<(usize, usize, TypeRef)> = literal_arg_sites(&ss).into_iter().filter(|(_, _, t)| accepts_variable(t)).collect();
             let (decl, ty) = if let Some((i, j, ty)) = pick(r, &lits) {
                 ss[*i].path.get_mut(&mut q)?.head_mut().args[*j].1 = Value::var(WRONG_VAR_NAME);
@@ -266,7 +267,7 @@ pub fn mutate_fault(r: &mut Rng, p: &Project, kind: FaultKind) -> Option<Project
                 ss[*i].path.get_mut(&mut q)?.head_mut().args.push((def.name.clone(), Value::var(WRONG_VAR_NAME)));
                 (ss[*i].path.decl, def.ty.clone())
             };
-            q.decls[decl].1.vars_mut()?.push(VarDef { name: WRONG_VAR_NAME.to_string(), ty: wrong_var_type(&ty), default: None });
+            q.decls[decl].1.vars_mut()?.push(VarDef { name: WRONG_VAR_NAME.to_string(), ty: wrong_var_type(&ty).nullable(), default: None });
         }
         FaultKind::DuplicateResponseName => {
             let s = pick(r, &ss)?;
